@@ -244,11 +244,10 @@ func (g Gateway) Set(ctx context.Context, in *hydrapb.SetRequest) (*hydrapb.SetR
 
 			// this is a meaningless setting
 			if !swampRequest.GetCreateIfNotExist() && !swampRequest.GetOverwrite() {
-				swampResponses = append(swampResponses, &hydrapb.SwampResponse{
-					SwampName:       swampRequest.SwampName,
-					KeysAndStatuses: []*hydrapb.KeyStatusPair{},
-					ErrorCode:       hydrapb.SwampResponse_CanNotBeExecuted.Enum(),
-				})
+				// one response entry per swamp: fill the entry that is appended after this closure
+				// (appending a second one here made a rejected swamp appear twice in the response)
+				swampResponse.KeysAndStatuses = []*hydrapb.KeyStatusPair{}
+				swampResponse.ErrorCode = hydrapb.SwampResponse_CanNotBeExecuted.Enum()
 				return
 			}
 
@@ -256,11 +255,8 @@ func (g Gateway) Set(ctx context.Context, in *hydrapb.SetRequest) (*hydrapb.SetR
 			if !swampRequest.GetCreateIfNotExist() {
 				isExist, err := hydraInterface.IsExistSwamp(swampRequest.GetIslandID(), swampName)
 				if err != nil || !isExist {
-					swampResponses = append(swampResponses, &hydrapb.SwampResponse{
-						SwampName:       swampRequest.SwampName,
-						KeysAndStatuses: []*hydrapb.KeyStatusPair{},
-						ErrorCode:       hydrapb.SwampResponse_SwampDoesNotExist.Enum(),
-					})
+					swampResponse.KeysAndStatuses = []*hydrapb.KeyStatusPair{}
+					swampResponse.ErrorCode = hydrapb.SwampResponse_SwampDoesNotExist.Enum()
 					return
 				}
 			}
